@@ -639,7 +639,7 @@ def build_logpass_records(rng, lp):
     return dfsr, data
 
 
-def random_file(rng, allow_be=True, two_files_p=0.2):
+def random_file(rng, allow_be=True, two_files_p=0.2, layout=None):
     """A LIS file with 1..2 logical files, each holding one log pass.  Returns (bytes, FileModel)."""
     fm = FileModel()
     lrs = []       # (kind, lr_type, name, bytes, logpass index, first frame, nframes)
@@ -678,7 +678,8 @@ def random_file(rng, allow_be=True, two_files_p=0.2):
         lrs.append(('tape-tail', 131, None, lr_reel_tape(131), None, None, None))
     if reel:
         lrs.append(('reel-tail', 133, None, lr_reel_tape(133), None, None, None))
-    layout = random_layout(rng, allow_be=allow_be)
+    if layout is None:
+        layout = random_layout(rng, allow_be=allow_be)
     data, extents, prs, layout = frame_safe([r[3] for r in lrs], layout)
     fm.layout = layout
     fm.data = data
